@@ -718,6 +718,20 @@ def z8(spec):
     return Model(spec, prob, inputs, of, [i.name for i in inputs], [s, md], coupled=coupled, driver=driver)
 
 
+@entry("Z8R")
+def z8r(spec):
+    """Rigid twin of Z8: the same surface, geometry and flow in an AeroPoint on the undeformed mesh."""
+    nx, ny = spec.get("nx", 2), spec.get("ny", 5)
+    md, mesh, twist_cp = _gen_mesh("CRM", nx, ny, True, num_twist_cp=3)
+    s = _aero_surface("wing", mesh, True, twist_cp, viscous=True, wave=bool(spec.get("wave", False)))
+    flight = {k: v for k, v in _as_flight().items() if k in ("v", "alpha", "Mach_number", "re", "rho")}
+    flight["cg"] = (np.zeros(3), "m")
+    prob, pn = _aero_problem(spec, [s], flight)
+    inputs = [Inp("v", 248.136), Inp("alpha", 5.0), Inp("Mach_number", 0.84), Inp("re", 1.0e6), Inp("rho", 0.38),
+              Inp("wing.twist_cp", twist_cp)]
+    return Model(spec, prob, inputs, [pn + ".CL"], [i.name for i in inputs], [s, md])
+
+
 @entry("Z9")
 def z9(spec):
     """Aerostructural, two tube surfaces (wing + tail), full span, struct_weight_relief."""
@@ -828,8 +842,9 @@ def z12(spec):
     base = {k: flight[k][0] for k in per_point}
     mult = {"v": [1.0, 0.75, 0.9], "alpha": [1.0, 1.6, 1.3], "Mach_number": [1.0, 0.75, 0.9], "re": [1.0, 1.8, 1.4],
             "rho": [1.0, 2.0, 1.5], "load_factor": [1.0, 2.5, 1.5], "speed_of_sound": [1.0, 1.0, 1.0]}
+    first = int(spec.get("first", 0))
     for k in per_point:
-        flight[k] = (np.array([base[k] * mult[k][i] for i in range(npts)]), flight[k][1])
+        flight[k] = (np.array([base[k] * mult[k][first + i] for i in range(npts)]), flight[k][1])
     prob, coupled = _as_problem(spec, [s], flight, n_points=npts, per_point=per_point, fuel_vol=wingbox)
     a0 = flight["alpha"][0]
     inputs = [
